@@ -68,7 +68,26 @@ def disp_inv(c, d, heap="old"):
                   V.is_dict(rd(d, "funcs")), V.is_str(rd(d, "encoding")),
                   z3.Or(V.is_none(pool), z3.And(V.is_obj(pool), Val.ref(pool) < ALLOC0, Val.ref(pool) >= 0,
                                                 Val.ref(pool) != Val.ref(d), Val.ref(pool) != Val.ref(cfg),
-                                                pool_unbounded(Val.ref(pool)))))
+                                                pool_unbounded(Val.ref(pool)), _pool_inv(c, pool, heap))))
+
+
+def _pool_inv(c, pool, heap):
+    from .threadpool import pool_inv      # the notification pool is a well-formed ThreadPool (contracts/threadpool.py)
+    return pool_inv(c, pool, heap)
+
+
+_POOL_GHOSTS = ("q_items", "q_puts", "threads_started", "thread_start_failures")
+_POOL_FRESH = ("_logger", "_done_event", "_FutureResult__callback", "_FutureResult__extra", "_EventData__event", "_EventData__data",
+               "_EventData__exception", "_flag", "name", "daemon", "args")
+
+
+def pool_frame(disp):
+    """what handing a notification to the dispatcher's pool may write: the pool's counters, its queue's task count"""
+    pool = lambda c: c.old(disp(c), POOLF)
+    return ([Field(pool, f) for f in ("_ThreadPool__nb_threads", "_ThreadPool__nb_active_threads", "_threads",
+                                      "_ThreadPool__nb_pending_task", "_thread_id")] +
+            [Field(lambda c: c.old(pool(c), "_queue"), "unfinished_tasks")] +
+            [Ghost(g) for g in _POOL_GHOSTS] + [Fresh(f) for f in _POOL_FRESH])
 
 
 def config_unchanged(c, cfg):
@@ -418,11 +437,12 @@ Contract(
                    c.gnew("env_kind") == 0, is_error_response(c.ret)),
             err_code(c.ret) == V.I(-32603)))(*_lookup_e(c)), ("C03", "C05")),
         ("configs_untouched", lambda c: config_unchanged(c, c.old(c.a.self, "json_config")), ("C13",)),
+        ("dispatcher_stays_wellformed", lambda c: disp_inv(c, c.a.self, "new"), ("C04", "C02")),
     ],
     modifies=[Ghost("call_log"), Ghost("env_calls"), Ghost("env_outcomes"), Ghost("env_kind"), Ghost("env_val"), Ghost("bind_err"),
               Ghost("pool_accepted"), Ghost("uuid_ctr"), Ghost("xlate_log"), Ghost("x_kind"), Ghost("x_val")] +
              [Fresh(f) for f in ("faultCode", "faultString", "rpcid", "config", "data", "id", "version") + _CFG_FIELDS] +
-             [Fresh(f) for f in ("_logger", "_done_event", "_FutureResult__callback", "_FutureResult__extra")],
+             pool_frame(lambda c: c.a.self),
     props=("C02", "C03", "C04", "C05", "C13"),
 )
 
@@ -469,7 +489,9 @@ def _batch_inv(L):
                                          usable_id(z3.Select(Val.lat(req), k)))),
                   patterns=[answered(req, k)]),
         # C13: the server's configuration object is never written while serving
-        *[L.field(cfg, f) == L.field0(cfg, f) for f in _CFG_FIELDS])
+        *[L.field(cfg, f) == L.field0(cfg, f) for f in _CFG_FIELDS] +
+        # the dispatcher (with its notification pool) stays well formed from one entry to the next
+        [disp_inv(L.now(), d)])
 
 
 def _um_domain(c):
@@ -522,7 +544,7 @@ Contract(
     modifies=[Ghost("call_log"), Ghost("env_calls"), Ghost("env_outcomes"), Ghost("env_kind"), Ghost("env_val"), Ghost("bind_err"),
               Ghost("pool_accepted"), Ghost("uuid_ctr"), Ghost("xlate_log"), Ghost("x_kind"), Ghost("x_val")] +
              [Fresh(f) for f in ("faultCode", "faultString", "rpcid", "config", "data", "id", "version", "args") + _CFG_FIELDS] +
-             [Fresh(f) for f in ("_logger", "_done_event", "_FutureResult__callback", "_FutureResult__extra")],
+             pool_frame(lambda c: c.a.self),
     props=("C02", "C03", "C04", "C05", "C13"),
 )
 
@@ -600,7 +622,7 @@ Contract(
               Ghost("pool_accepted"), Ghost("uuid_ctr"), Ghost("xlate_log"), Ghost("x_kind"), Ghost("x_val"), Ghost("last_dumped"), Ghost("imports"),
               Ghost("constructs"), Ghost("checked_name"), Ghost("bean_attrs")] +
              [Fresh(f) for f in ("faultCode", "faultString", "rpcid", "config", "data", "id", "version", "args") + _CFG_FIELDS] +
-             [Fresh(f) for f in ("_logger", "_done_event", "_FutureResult__callback", "_FutureResult__extra")],
+             pool_frame(lambda c: c.a.self),
     props=("C02", "C03", "C05", "C08", "C13"),
 )
 
@@ -697,6 +719,9 @@ Contract(
                                  "uuid_ctr", "xlate_log", "x_kind", "x_val", "last_dumped", "imports", "constructs",
                                  "checked_name", "bean_attrs")] +
              [Fresh(f) for f in ("faultCode", "faultString", "rpcid", "config", "data", "id", "version", "args") + _CFG_FIELDS] +
-             [Fresh(f) for f in ("_logger", "_done_event", "_FutureResult__callback", "_FutureResult__extra")],
+             pool_frame(_srv),
     props=("C17", "C12", "C02"),
 )
+# the many raising points of the try block all enter one `except:`; their states are joined before the handler runs
+# (an over-approximation, justified by join-frame obligations) instead of running the handler once per point
+__import__("pyvc.contracts", fromlist=["REGISTRY"]).REGISTRY[HANDLER + ".do_POST"].join_handlers = True
